@@ -279,6 +279,18 @@ fn main() {
             println!("picks {:?} monitor {:?}", ex.picks, ex.monitor_err);
             0
         }
+        Some("dbg12") => {
+            use std::os::unix::ffi::OsStrExt;
+            drop_privileges();
+            let scratch = Scratch::new("dbg12");
+            let odd = scratch.path.join(std::ffi::OsStr::from_bytes(b"caf\xe9-root"));
+            std::fs::create_dir_all(&odd).unwrap();
+            let c = kvlib::c12::Case { hash: 1, sec: 2, n: 7, kind: 1, label: "x" };
+            println!("{:?}", kvlib::c12::judge(&odd, &c));
+            let snap = snapshot(&scratch.path);
+            for k in snap.keys() { println!("  {}", k); }
+            0
+        }
         Some("trace-os") => {
             // debugging aid: print the fault-free trace of an (op, pre, fe, fire) case
             let os = kvlib::opstate::OsCase { op: args[2].parse().unwrap(), pre: args[3].parse().unwrap(), fe: args[4].parse().unwrap(), size: 17, fire: args[5] == "1" };
